@@ -177,7 +177,8 @@ def run_probes(rep, thorough):
         big = any(st.startswith('R ') for st in hist)
         # with a primary key the DELETE's scan merges the row-sets in key order (handlers of different row-sets alternate)
         dup_keys = any(len(set(st.split()[1:])) != len(st.split()[1:]) for st in hist if st.startswith('I '))
-        configs = [('mem', None, False), ('disk', 4096, False)] + ([] if big else [('disk', 24, False)]) + ([] if dup_keys else [('disk', 4096, True), ('mem', None, True)])
+        # 256-byte blocks: 64 rows per scan batch, so a big DELETE covers whole batches of a row-set and later ones start after skipped batches
+        configs = [('mem', None, False), ('disk', 4096, False)] + ([('disk', 256, False)] if big else [('disk', 24, False)]) + ([] if dup_keys else [('disk', 4096, True), ('mem', None, True)])
         for eng, block, pk in configs:
             stmts = ['create table t(k int%s, v int)' % (' primary key' if pk else '')]
             model = []
